@@ -569,8 +569,10 @@ pub fn vec_append(a: &mut Vec<u8>, b: &mut Vec<u8>)
 // ================================================================ variable-width primitives of the decoder (de.rs) on top of the Read contract
 opaque_err!();
 /// what a compound header decoder hands to the serde visitor: which access (0 array, 1 list, 2 map), body length in octets, element count
-pub struct Handed { pub kind: int, pub len: int, pub count: int }
-pub struct Deserializer<R> { pub reader: R, pub elem_format_code: Option<EncodingCodes>, pub handed: Ghost<Option<Handed>> }
+pub struct Handed { pub kind: int, pub len: int, pub count: int, pub unread_at: Seq<u8> }
+//@@ type file=serde_amqp/src/util.rs kind=enum name=NonNativeType
+//@@ end
+pub struct Deserializer<R> { pub reader: R, pub elem_format_code: Option<EncodingCodes>, pub handed: Ghost<Option<Handed>>, pub non_native_type: Option<NonNativeType> }
 pub struct VisitorS { pub g: Ghost<int> }
 #[verifier::external_body]
 pub struct VisitValue { _p: u8 }
@@ -579,21 +581,21 @@ pub struct VisitValue { _p: u8 }
 pub fn visit_array<R: Read>(visitor: VisitorS, de: &mut Deserializer<R>, len: usize, count: usize) -> (r: Result<VisitValue, Error>)
     requires old(de).reader.wf(),
         count > 0 ==> old(de).elem_format_code is Some,            // [C03.array.element-constructor-set] a non-empty array body is handed on together with its element constructor
-    ensures final(de).reader.wf(), final(de).handed@ == Some(Handed { kind: 0, len: len as int, count: count as int }),
+    ensures final(de).reader.wf(), final(de).handed@ == Some(Handed { kind: 0, len: len as int, count: count as int, unread_at: old(de).reader.unread() }),
 { unimplemented!() }
 /// `visitor.visit_seq(ListAccess::new(de, len, count))`
 #[verifier::external_body]
 pub fn visit_list<R: Read>(visitor: VisitorS, de: &mut Deserializer<R>, len: usize, count: usize) -> (r: Result<VisitValue, Error>)
     requires old(de).reader.wf(),
         count > 0 ==> old(de).elem_format_code is None,           // [C03.compound.body-own-constructors] the elements of a list carry their own constructors, also when the list itself is an element of an array (whose element constructor must not leak into the list body)
-    ensures final(de).reader.wf(), final(de).handed@ == Some(Handed { kind: 1, len: len as int, count: count as int }),
+    ensures final(de).reader.wf(), final(de).handed@ == Some(Handed { kind: 1, len: len as int, count: count as int, unread_at: old(de).reader.unread() }),
 { unimplemented!() }
 /// `visitor.visit_map(MapAccess::new(de, size, count))`
 #[verifier::external_body]
 pub fn visit_map<R: Read>(visitor: VisitorS, de: &mut Deserializer<R>, len: usize, count: usize) -> (r: Result<VisitValue, Error>)
     requires old(de).reader.wf(),
         count > 0 ==> old(de).elem_format_code is None,           // [C03.compound.body-own-constructors] the keys and values of a map carry their own constructors, also when the map itself is an element of an array
-    ensures final(de).reader.wf(), final(de).handed@ == Some(Handed { kind: 2, len: len as int, count: count as int }),
+    ensures final(de).reader.wf(), final(de).handed@ == Some(Handed { kind: 2, len: len as int, count: count as int, unread_at: old(de).reader.unread() }),
 { unimplemented!() }
 //@@ type file=serde_amqp/src/util.rs kind=enum name=IsArrayElement
 //@@ end
@@ -633,6 +635,7 @@ impl<R: Read> Deserializer<R> {
 //@@ spec
     requires bounded(old(self).reader),
     ensures
+        final(self).non_native_type == old(self).non_native_type,
         final(self).elem_format_code == old(self).elem_format_code, final(self).handed == old(self).handed, final(self).reader.wf(),
         (match r {
             Some(Ok(c)) => old(self).reader.unread().len() > 0 && c as u8 == old(self).reader.unread()[0] && final(self).reader.unread() =~= old(self).reader.unread().skip(1)
@@ -650,6 +653,7 @@ impl<R: Read> Deserializer<R> {
 //@@ spec
     requires bounded(old(self).reader),
     ensures
+        final(self).non_native_type == old(self).non_native_type,
         final(self).elem_format_code == old(self).elem_format_code, final(self).handed == old(self).handed, final(self).reader.wf(),
         old(self).elem_format_code is Some ==> r == Some(Ok::<EncodingCodes, Error>(old(self).elem_format_code->Some_0)) && final(self).reader.unread() =~= old(self).reader.unread()
             && final(self).reader.consumed() == old(self).reader.consumed(),                                 // [C05.array.one-constructor] inside an array the element constructor is the array's, nothing is read for it
@@ -771,10 +775,35 @@ impl<R: Read> Deserializer<R> {
 //@@ spec
     requires bounded(old(self).reader), old(self).elem_format_code is None,
     ensures
+        final(self).non_native_type == old(self).non_native_type,
         final(self).reader.wf(),
         r is Ok ==> var_decoded(0xa0, 0xb0, old(self).reader.unread()) == Some(r->Ok_0@)
             && final(self).reader.unread() =~= old(self).reader.unread().skip(var_consumed(0xa0, old(self).reader.unread())),   // [C05.binary.decoding] [C03.rt.decoder-premise]
         old(self).reader.reliable() && var_decoded(0xa0, 0xb0, old(self).reader.unread()) is Some ==> r is Ok,                              // [C05.binary.every-variant-accepted]
+//@@ end
+}
+
+/// `self.reader.forward_read_byte_buf(visitor)`: the contract of Read::forward_read_byte_buf checked against both readers above (byte_buf_forwarded)
+#[verifier::external_body]
+pub fn reader_forward_read_byte_buf<R: Read>(reader: &mut R, visitor: VisS) -> (r: Result<VisValue, Error>)
+    requires bounded(*old(reader)),
+    ensures byte_buf_forwarded(*old(reader), *final(reader), r), final(reader).wf(),
+{ unimplemented!() }
+impl<R: Read> Deserializer<R> {
+//@@ fn file=serde_amqp/src/de.rs impl=`~de::Deserializer<'de>for&mutDeserializer<R>` name=deserialize_byte_buf
+//@@ selfmut
+//@@ qmark
+//@@ generics
+//@@ nowhere
+//@@ param visitor : VisS
+//@@ ret Result<VisValue, Error>
+//@@ subst `self.reader.forward_read_byte_buf(visitor)` => `reader_forward_read_byte_buf(&mut self.reader, visitor)` rule=R9
+//@@ subst `unreachable!("Only Binary and LazyValue are expected in deserialize_byte_buf")` => `{ assume(false); Err(Error::InvalidFormatCode) }` rule=R12
+//@@ spec
+    requires bounded(old(self).reader), old(self).elem_format_code is None,
+        old(self).non_native_type is None || old(self).non_native_type->Some_0 is LazyValue,      // (the other markers are consumed by deserialize_i64 / _string / _str / _bytes; the arm for them is `unreachable!`, R12)
+    ensures
+        final(self).non_native_type is None,       // [C03.marker.one-shot] a type marker set by a newtype wrapper (here: LazyValue) is consumed by the value it marks: it does not reach the NEXT value read through the same deserializer (a binary after a LazyValue -- a message footer after a LazyValue body -- was captured raw, constructor and size octets included)
 //@@ end
 }
 
@@ -801,8 +830,8 @@ pub open spec fn compound_header(u: Seq<u8>) -> Option<(int, int)> {
     else if u[0] == 0x45 { Some((0int, 0int)) }
     else if u[0] == 0xc0 || u[0] == 0xc1 { if u.len() >= 3 && u[1] >= 1 { Some((u[1] as int - 1, u[2] as int)) } else { None } }
     else if u[0] == 0xd0 || u[0] == 0xd1 { if u.len() >= 9 && sp_be32(u.subrange(1, 5)) >= 4 { Some((sp_be32(u.subrange(1, 5)) as int - 4, sp_be32(u.subrange(5, 9)) as int)) } else { None } }
-    else if u[0] == 0xe0 { if u.len() >= 3 && (u[2] == 0 || u[1] >= 2) { Some((if u[2] == 0 { u[1] as int } else { u[1] as int - 2 }, u[2] as int)) } else { None } }
-    else if u[0] == 0xf0 { if u.len() >= 9 && (sp_be32(u.subrange(5, 9)) == 0 || sp_be32(u.subrange(1, 5)) >= 5) { Some((if sp_be32(u.subrange(5, 9)) == 0 { sp_be32(u.subrange(1, 5)) as int } else { sp_be32(u.subrange(1, 5)) as int - 5 }, sp_be32(u.subrange(5, 9)) as int)) } else { None } }
+    else if u[0] == 0xe0 { if u.len() >= 3 && ((u[2] == 0 && u[1] >= 1) || u[1] >= 2) { Some((if u[2] == 0 { 0int } else { u[1] as int - 2 }, u[2] as int)) } else { None } }
+    else if u[0] == 0xf0 { if u.len() >= 9 && ((sp_be32(u.subrange(5, 9)) == 0 && sp_be32(u.subrange(1, 5)) >= 4) || sp_be32(u.subrange(1, 5)) >= 5) { Some((if sp_be32(u.subrange(5, 9)) == 0 { 0int } else { sp_be32(u.subrange(1, 5)) as int - 5 }, sp_be32(u.subrange(5, 9)) as int)) } else { None } }
     else { None }
 }
 
@@ -813,7 +842,7 @@ pub open spec fn eff_unread<R: Read>(de: Deserializer<R>) -> Seq<u8> {
 }
 
 pub open spec fn valid_array8_header(u: Seq<u8>) -> bool {
-    u.len() >= 3 && u[0] == 0xe0 && (u[2] == 0 || (u[1] >= 2 && u.len() >= 4 && amqp_ctor(u[3])))
+    u.len() >= 3 && u[0] == 0xe0 && ((u[2] == 0 && u[1] >= 1 && u.len() >= 2 + u[1]) || (u[2] > 0 && u[1] >= 2 && u.len() >= 2 + u[1] && amqp_ctor(u[3])))
 }
 
 impl<R: Read> Deserializer<R> {
@@ -828,7 +857,7 @@ impl<R: Read> Deserializer<R> {
 //@@ subst `|| Error::unexpected_eof("Expecting len")` => `|| -> (o: Error) { Error::unexpected_eof("Expecting len") }` rule=R18
 //@@ subst `|| Error::unexpected_eof("Expecting count")` => `|| -> (o: Error) { Error::unexpected_eof("Expecting count") }` rule=R18
 //@@ subst `u32::from_be_bytes(` => `from_be32(` rule=R9
-//@@ subst `visitor.visit_seq(ArrayAccess::new(self, len, count))` => `visit_array(visitor, self, len, count)` rule=R9
+//@@ subst `visitor.visit_seq(ArrayAccess::new(self, __E1, count))` => `visit_array(visitor, self, __E1, count)` rule=R9
 //@@ subst `visitor.visit_seq(ListAccess::new(self, len, count))` => `visit_list(visitor, self, len, count)` rule=R9
 //@@ spec
     requires bounded(old(self).reader), old(self).handed@ is None,
@@ -841,7 +870,12 @@ impl<R: Read> Deserializer<R> {
             &&& h.kind == (if u[0] == 0xe0 || u[0] == 0xf0 { 0int } else { 1int })
             &&& h.count <= 65536 || u[0] == 0xc0                                                                 // [C04.compound.count-capped] 32-bit counts are capped before anything iterates or allocates by them
             &&& (h.kind == 0 ==> h.count <= h.len + 5)                                                           // [C04.array.count-bounded-by-size] an array cannot announce more elements than its size field covers
+            &&& (h.kind == 0 ==> h.count <= u.len())                                                             // [C04.array.count-bounded-by-input] ... nor more elements than there are unread input octets: size and count are both fields the peer chose, and elements may be zero octets wide (null, true, list0...), so `count <= size` alone lets 10 octets buy 65 536 elements
         }),
+        final(self).handed@ is Some && eff_unread(*old(self))[0] == 0xe0 && final(self).handed@->Some_0.count == 0 && old(self).reader.consumed() + old(self).reader.unread().len() + 1 < usize::MAX ==> ({
+            let hdr = if old(self).elem_format_code is Some { 0int } else { 1int };
+            final(self).handed@->Some_0.unread_at =~= old(self).reader.unread().skip(hdr + 1 + eff_unread(*old(self))[1] as int)
+        }),                                                                                                      // [C05.array.empty-array-body-consumed] an EMPTY array that carries its element constructor (`e0 02 00 a3`: size 2 = count octet + constructor) is consumed whole: the octets its size field announces belong to it, they are not left in the stream for the next value
         // completeness: a well-formed array8 header (AMQP 1.0 part 1, 1.6.24: size >= count octet + element constructor; any count 0..=255, since elements may be zero octets wide) is accepted
         old(self).reader.reliable() && valid_array8_header(eff_unread(*old(self))) && eff_unread(*old(self))[2] <= eff_unread(*old(self))[1] ==> final(self).handed@ is Some,    // [C05.array8.every-valid-header-accepted] (count <= size field)
         old(self).reader.reliable() && valid_array8_header(eff_unread(*old(self))) && eff_unread(*old(self))[2] > eff_unread(*old(self))[1] ==> final(self).handed@ is Some,     // [C05.array8.zero-width-elements-count-above-size] a count above the size field is valid when the elements are zero octets wide (null, true, false, uint0, ulong0, list0)
